@@ -186,6 +186,21 @@ def check_append(c, f, loop):
     hs = [h for h in iter_nodes(loop) if isinstance(h, ast.ExceptHandler)]
     names = sorted(norm(h.type) for h in hs)
     c.check(names == ['EOF', 'TIMEOUT'], f, loop, 'the loop handles exactly EOF and TIMEOUT', witness=str(names), kind='ast', tag='handlers')
+    # everything in the loop that talks to the child (the wait, the answers, the caller's callback -- which may itself wait on the child)
+    # runs under those handlers: an EOF / TIMEOUT from any of them ends the run with the text so far instead of escaping from run()
+    resp_names = set(['responses[index]'] + [k_ for k_, v_ in aliases_of(f).single_assign.items() if norm(v_) == 'responses[index]'])
+    for k in calls_in(loop):
+        if any(isinstance(p, ast.ExceptHandler) for p in parent_chain(k)):
+            continue
+        talks = (isinstance(k.func, ast.Attribute) and norm(k.func.value) == 'child' and k.func.attr in ('expect', 'expect_exact', 'expect_list', 'send', 'sendline', 'read', 'readline')) \
+            or norm(k.func) in resp_names
+        if not talks:
+            continue
+        cover = [p for p in parent_chain(k) if isinstance(p, ast.Try) and any(p is q or any(p is y for y in ast.walk(q)) for q in [loop])
+                 and {'EOF', 'TIMEOUT'} <= set(norm(h.type) for h in p.handlers if h.type is not None)
+                 and any(k is y for st_ in p.body for y in ast.walk(st_))]
+        c.check(bool(cover), f, k, '%s runs under the EOF / TIMEOUT handlers of the loop (an EOF or TIMEOUT raised while an event is answered must end the run, '
+                'not escape from run())' % norm(k.func), kind='ast', tag='covered:' + norm(k.func)[:30])
     for h in hs:
         ap = [k for s in h.body for k in calls_in(s) if callee_last(k) == 'append' and is_name(k.func.value, 'child_result_list')]
         ok = len(ap) == 1 and norm(ap[0].args[0]) == 'child.before' and isinstance(h.body[-1], ast.Break)
@@ -211,13 +226,15 @@ def check_dispatch(c, f, loop):
     """the three-way dispatch on the response object, stated as path conditions so that it does not matter whether it is
     written as if/elif/else, as guard clauses, with `or` or with its De Morgan dual"""
     g = f.cfg
-    R = 'responses[index]'
-    S = None
-    for t in g.nodes:
-        if t.kind == 'test' and t.ast is not None:
-            for a_, v_ in expand_condition(t.ast, True) | expand_condition(t.ast, False):
-                if a_.startswith('isinstance(%s' % R) and 'allowed_string_types' in a_:
-                    S = a_
+    # the response object: `responses[index]` written out, or a local that holds it (`response = responses[index]`, bound once, inside the loop)
+    cands = ['responses[index]'] + [k_ for k_, v_ in aliases_of(f).single_assign.items() if norm(v_) == 'responses[index]']
+    R = S = None
+    for R_ in cands:
+        for t in g.nodes:
+            if t.kind == 'test' and t.ast is not None:
+                for a_, v_ in expand_condition(t.ast, True) | expand_condition(t.ast, False):
+                    if a_.startswith('isinstance(%s' % R_) and 'allowed_string_types' in a_:
+                        R, S = R_, a_
     c.need(S is not None, 'dispatch: isinstance(responses[index], <string types>) test not found')
     F, M = 'isinstance(%s, types.FunctionType)' % R, 'isinstance(%s, types.MethodType)' % R
     disp = lambda cs: set((a_, v_) for a_, v_ in cs if a_.startswith('isinstance(%s' % R))
@@ -311,6 +328,7 @@ def check_consumed(c, f, loop):
 
 
 MUTANTS = [
+    ('wait-outside-handlers', 'run', '        except EOF:\n            child_result_list.append(child.before)\n            break\n    child_result = child.string_type().join(child_result_list)', '        except EOF:\n            child_result_list.append(child.before)\n            break\n        child.expect(patterns, timeout=0)\n    child_result = child.string_type().join(child_result_list)', 'D2'),
     ('eof-event-keeps-looping', 'run', "            if child.after is EOF:\n", "            if child.after is EOF and not responses:\n", 'D7'),
     ('eof-event-stop-removed', 'run', "            if child.after is EOF:\n                # EOF was one of the events: it has been answered, and the\n                # stream has ended, so there is nothing more to wait for.\n                break\n", "", 'D7'),
     ('list-via-dict', 'run', "    if isinstance(events, list):\n        patterns= [x for x,y in events]\n        responses = [y for x,y in events]\n    elif isinstance(events, dict):", "    if isinstance(events, list):\n        events = dict(events)\n    if isinstance(events, dict):", 'D1'),
